@@ -2,8 +2,8 @@
 from ..main import k_suite, Violation, parse_mismatch
 from .. import ksuites
 
-LEAN_MODULES = ["Shm.Props.C08"]
-GEN_TABLES = ["AttrUpdate.lean", "ClassTable.lean"]
+LEAN_MODULES = ["Shm.Props.C08", "Shm.Props.FactsC08"]
+GEN_TABLES = ["EntryFacts.lean", "AttrUpdate.lean", "ClassTable.lean"]
 LEVEL = "proof"
 RULE = ("T08: as T02 (generated class tables and update programs). K08: object histories over all 25 classes: creation templates with injected defects "
         "(forbidden/history attributes at random positions, wrong sizes, foreign attributes), C_SetAttributeValue / C_CopyObject templates over every class "
